@@ -41,6 +41,7 @@ import (
 
 var stored []ct.LeafEntry // real leaves: even indices certificates, odd indices precertificates
 var storedIsPre []bool
+var storedBadCert []ct.LeafEntry // the same leaves with the certificate / TBSCertificate bytes replaced by bytes no X.509 parser accepts; the leaf structure itself is intact
 
 func init() {
 	root := pki.NewRoot("C16 Root", pki.LoadKey("p256-0"))
@@ -76,6 +77,19 @@ func init() {
 			panic(err)
 		}
 		stored = append(stored, ct.LeafEntry{LeafInput: li, ExtraData: extra})
+		bl := *ml
+		if pre {
+			pc := *bl.TimestampedEntry.PrecertEntry
+			pc.TBSCertificate = []byte{0x01, 0x02, 0x03}
+			bl.TimestampedEntry.PrecertEntry = &pc
+		} else {
+			bl.TimestampedEntry.X509Entry = &ct.ASN1Cert{Data: []byte{0x01, 0x02, 0x03}}
+		}
+		bli, err := tls.Marshal(bl)
+		if err != nil {
+			panic(err)
+		}
+		storedBadCert = append(storedBadCert, ct.LeafEntry{LeafInput: bli, ExtraData: extra})
 		storedIsPre = append(storedIsPre, pre)
 	}
 }
@@ -96,12 +110,13 @@ type scenario struct {
 	StopKind   string // "", "stop", "cancel": whether the director may stop / cancel at any point
 	Bound      int
 	Bad        int  // 1-based index of an entry the log serves with a truncated (unparsable) leaf_input; 0 = none. The fetcher hands it on verbatim; the scanner skips it and goes on
+	BadCert    int  // 1-based index of an entry whose leaf is well formed but whose certificate bytes do not parse; 0 = none. The fetcher hands it on verbatim; a scanner whose matcher looks at certificates skips it, a scanner whose matcher looks at leaves and selects it must deliver it
 	Slow       bool // slow consumer: every callback invocation is a gate, so Stop / cancel and answers can land while a batch is only partly handed over
 }
 
 func (s scenario) String() string {
 	return fmt.Sprintf("N=%d [%d,%d) batch=%d fetchers=%d cont=%v grow=%v mode=%s workers=%d buf=%d faults=%d stop=%q bound=%d slow=%v bad=%d",
-		s.N, s.Start, s.End, s.Batch, s.Fetchers, s.Continuous, s.Grow, s.Mode, s.Workers, s.Buffer, s.Faults, s.StopKind, s.Bound, s.Slow, s.Bad-1)
+		s.N, s.Start, s.End, s.Batch, s.Fetchers, s.Continuous, s.Grow, s.Mode, s.Workers, s.Buffer, s.Faults, s.StopKind, s.Bound, s.Slow, s.Bad-1) + fmt.Sprintf(" badcert=%d", s.BadCert-1)
 }
 
 type reqInfo struct {
@@ -114,6 +129,9 @@ func servedEntry(sc scenario, i int64) ct.LeafEntry {
 	e := stored[i]
 	if sc.Bad > 0 && i == int64(sc.Bad-1) {
 		return ct.LeafEntry{LeafInput: e.LeafInput[:11], ExtraData: e.ExtraData}
+	}
+	if sc.BadCert > 0 && i == int64(sc.BadCert-1) {
+		return storedBadCert[i]
 	}
 	return e
 }
@@ -232,6 +250,8 @@ func runScenario(sc scenario) func(t *testing.T, x *gate.Exec) {
 				switch sc.Mode {
 				case "scan-leafparity":
 					so.Matcher = parityMatcher{}
+				case "scan-leafall":
+					so.Matcher = leafAllMatcher{}
 				case "scan-precertonly":
 					so.PrecertOnly = true
 				}
@@ -480,7 +500,19 @@ func (parityMatcher) Matches(l *ct.LeafEntry) bool {
 	return ml.TimestampedEntry.Timestamp%2 == 0
 }
 
+// leafAllMatcher is a LeafMatcher that selects every entry whose leaf structure parses (like scanlog's parse-error matcher, it does not need the certificate to parse).
+type leafAllMatcher struct{}
+
+func (leafAllMatcher) Matches(l *ct.LeafEntry) bool {
+	var ml ct.MerkleTreeLeaf
+	_, err := tls.Unmarshal(l.LeafInput, &ml)
+	return err == nil
+}
+
 func selectedBy(sc scenario, i int64) (bool, string) {
+	if sc.BadCert > 0 && i == int64(sc.BadCert-1) && (sc.Mode == "scan-all" || sc.Mode == "scan-precertonly") {
+		return false, "" // matchers that look at certificates never see it: counted as unparsable
+	}
 	if sc.Bad > 0 && i == int64(sc.Bad-1) && sc.Mode != "fetcher" {
 		return false, "" // the scanner cannot parse it: counted as unparsable, never handed to a callback
 	}
@@ -502,6 +534,11 @@ func selectedBy(sc scenario, i int64) (bool, string) {
 			return true, "precert"
 		}
 		return false, ""
+	case "scan-leafall":
+		if storedIsPre[i] {
+			return true, "precert"
+		}
+		return true, "cert"
 	}
 	return false, ""
 }
@@ -527,7 +564,7 @@ func oracle(sc scenario, x *gate.Exec, lg *gatedLog, got []delivery, size int, f
 		if sc.Mode == "fetcher" {
 			return string(servedEntry(sc, i).LeafInput) + "|" + string(servedEntry(sc, i).ExtraData)
 		}
-		return string(stored[i].LeafInput)
+		return string(servedEntry(sc, i).LeafInput)
 	}
 	seen := map[int64]int{}
 	for _, d := range got {
@@ -654,6 +691,15 @@ func scenarios(th bool) []scenario {
 		out = append(out, scenario{N: 5, Batch: 5, Fetchers: 2, Mode: "scan-precertonly", Workers: 2, Buffer: 1, Faults: 1, Bound: 1, Bad: bad})
 	}
 	out = append(out, scenario{N: 5, Batch: 2, Fetchers: 2, Mode: "fetcher", Faults: 1, Bound: 1, Bad: 2})
+	// a well-formed leaf around certificate bytes that do not parse (certificate at even, precertificate at odd indices)
+	for _, bc := range []int{1, 2, 3, 4} {
+		out = append(out, scenario{N: 5, Batch: 3, Fetchers: 1, Mode: "scan-leafall", Workers: 1, Buffer: 0, Faults: 1, Bound: 1, BadCert: bc})
+		out = append(out, scenario{N: 5, Batch: 3, Fetchers: 1, Mode: "scan-all", Workers: 2, Buffer: 1, Faults: 1, Bound: 1, BadCert: bc})
+	}
+	out = append(out, scenario{N: 5, Batch: 2, Fetchers: 2, Mode: "scan-leafparity", Workers: 2, Buffer: 0, Faults: 1, Bound: 1, BadCert: 3})
+	out = append(out, scenario{N: 5, Batch: 2, Fetchers: 2, Mode: "scan-precertonly", Workers: 1, Buffer: 0, Faults: 1, Bound: 1, BadCert: 2})
+	out = append(out, scenario{N: 5, Batch: 2, Fetchers: 2, Mode: "fetcher", Faults: 1, Bound: 1, BadCert: 2})
+	out = append(out, scenario{N: 5, Batch: 2, Fetchers: 1, Mode: "scan-leafall", Workers: 2, Buffer: 1, Faults: 1, Bound: 1})
 	// slow consumers: Stop / cancel and further answers while a fetched batch is only partly handed over
 	for _, w := range []int{1, 2} {
 		for _, b := range []int{0, 1} {
